@@ -3,6 +3,7 @@ package s3db
 import (
 	"context"
 	"fmt"
+	"net/http"
 	"strings"
 	"sync"
 	"time"
@@ -96,7 +97,10 @@ type S3Options struct {
 }
 
 func getS3(endpoint string) (*s3.S3, error) {
-	config := aws.Config{}
+	// a client of our own: with AWS_CA_BUNDLE set, session.NewSession installs
+	// a transport into the HTTP client it is given, and the default is the
+	// process-wide http.DefaultClient, which other connections are using
+	config := aws.Config{HTTPClient: &http.Client{}}
 	if endpoint != "" {
 		config.Endpoint = &endpoint
 		config.S3ForcePathStyle = aws.Bool(true)
